@@ -21,7 +21,23 @@ def cdilog():
     sys.exit(1 if err > 1e-13 else 0)
 
 
+def cl2():
+    import ctypes
+    x = float(sys.argv[2])
+    lib = harness_native('h_cdilog')
+    f = getattr(lib, '_ZN7gm2calc9clausen_2Ed')
+    f.restype = ctypes.c_double
+    f.argtypes = [ctypes.c_double]
+    got = f(x)
+    mpmath.mp.dps = 40
+    ref = mpmath.clsin(2, mpmath.mpf(x))
+    print('clausen_2(%r) = %r, Cl2 = %s' % (x, got, mpmath.nstr(ref, 17)))
+    sys.exit(0 if got == got and abs(got - ref) <= 1e-13 * max(abs(ref), 1e-3) else 1)
+
+
 def main():
+    if sys.argv[1] == 'cl2':
+        return cl2()
     if sys.argv[1] == 'cdilog':
         return cdilog()
     name, sym, xs, tol = sys.argv[1], sys.argv[2], sys.argv[3:-1], float(sys.argv[-1])
